@@ -42,6 +42,18 @@ pub fn repo_relative(file: &str) -> String {
             return file[i + 1..].to_string();
         }
     }
+    // registry and std sources: drop the machine-specific prefix
+    if let Some(i) = file.find("/registry/src/") {
+        let rest = &file[i + "/registry/src/".len()..];
+        if let Some(j) = rest.find('/') {
+            return rest[j + 1..].to_string();
+        }
+    }
+    if file.starts_with("/rustc/") {
+        if let Some(i) = file.find("/library/") {
+            return file[i + 1..].to_string();
+        }
+    }
     file.to_string()
 }
 
